@@ -12,9 +12,11 @@ from harness.framework import Suite
 
 PID = "C01"
 TRANSLATE = True
-READY = False
 LEAN_MODS = ["SwcVerif.Props.C01"]
-THEOREMS = []
+THEOREMS = [
+    "C01.writer_consts_pinned", "C01.digits_parse", "C01.fmt4_parse", "C01.row_roundtrip", "C01.comment_roundtrip", "C01.comment_text_same",
+    "C01.header_dropped", "C01.written_lines_are_lines", "C01.table_roundtrip", "C01.comments_roundtrip", "C01.reset_restores",
+]
 TRUSTED = ["hand-written writer/reader text models (Model/SwcText.lean) tied by the c01.roundtrip correspondence; constants pinned via Gen/Consts.lean"]
 ASSUMPTIONS = ["CPython float formatting f'{v:.4f}' (correct rounding of the binary value) and float() parsing; float32 storage after reading",
                "comments that themselves start with the column-header text `id type x y z r pid` are outside the quantifier (the format cannot tell them from the writer's header)"]
@@ -186,7 +188,4 @@ LEVEL_TEXT = ("Kernel-checked for every table, every offset ≥ 0 and every comm
               "parents, types, coordinates on the 4-decimal grid) and the same comments with nothing added but the source header. Tied to the code by the "
               "extracted format constants and by comparing the models with the real writer/reader.")
 LEVEL_NOTE = "Trusted: Lean kernel; CPython's float formatting/parsing (the float→4-decimal rounding is computed by the harness with `decimal`); float32 storage."
-try:
-    from harness.props._c01_theorems import THEOREMS  # noqa: F401
-except Exception:  # noqa: BLE001
-    pass
+
